@@ -46,7 +46,7 @@ TARGETS = [
     "sigma.processing.transformations.base:FieldMappingTransformationBase.apply",
 ]
 BOUNDS = {
-    "structure": "8 correlation types x 1..3 referenced rules (first: single-condition / two-condition / nested correlation; others: single / two-condition) x group-by (none, [user], [user, ip], alias) x generate x field-mapping pipeline (unconditional; LSC=1: bound to a logsource rule condition) x sub-query finalisation x typing templates",
+    "structure": "8 correlation types x 1..3 referenced rules (first: single-condition / two-condition / nested correlation; others: single / two-condition) x group-by (none, [user], [user, ip], alias) x generate x field-mapping pipeline (unconditional; LSC=1: bound to a logsource rule condition; PPALL=1: query post-processing applies to correlation rules too) x sub-query finalisation x typing templates",
     "condition": "8 types x 6 operators x 5 counts (incl. fractions) x percentile",
     "timespan": "7 units x 4 counts x 3 rendering modes; SigmaCorrelationTimespan on every string of length <= 3 (quick) / 4 (thorough) over a 12-character alphabet (digits incl. a non-ASCII digit, units, sign, space, other letters)",
     "extended conditions": "18 expressions over 3 rule names x temporal / temporal_ordered x with / without explicit rules list",
@@ -111,6 +111,9 @@ def pipe_dict():
         # the field mapping is bound to the log source of the rules: a correlation rule matches through the
         # rules it refers to (also through nested correlation rules)
         d["transformations"][0]["rule_conditions"] = [{"type": "logsource", "category": "c"}]
+    if P("PPALL", 0):
+        # the query post-processing item applies to correlation rules as well
+        d["postprocessing"][0].pop("rule_conditions")
     return d
 
 
@@ -197,7 +200,7 @@ def expected_elements(docs, kinds, gb, gen, pipe, finalize, typing, tsmode, ctyp
         b.convert(coll)
         target = [r for r in coll.rules if r.title == "r" + "abc"[i]][0]
         qs = list(target.get_conversion_result())
-        if not finalize and pipe and k != 2:
+        if not finalize and pipe and (k != 2 or P("PPALL", 0)):
             # stand-alone conversion finalises (post-processes) the query; embedded sub-queries are raw unless the backend opts in
             qs = [q[2:-1] if q.startswith("F[") and q.endswith("]") else q for q in qs]
         own.append(qs)
@@ -224,7 +227,7 @@ def check_structure(ti, kinds, gb, gen, pipe, finalize, typing) -> bool:
             pass  # leaf is referenced by the nested (non-generating) correlation only
         for i, k in enumerate(kinds):
             # what a rule emits for itself is always finalised (post-processed), whatever is embedded
-            full = own[i] if (finalize or not pipe or k == 2) else ["F[" + x + "]" for x in own[i]]
+            full = own[i] if (finalize or not pipe or (k == 2 and not P("PPALL", 0))) else ["F[" + x + "]" for x in own[i]]
             exp_out.extend(full)
     exp_out.append(q)
     if list(out) != exp_out:
@@ -246,7 +249,10 @@ def check_structure(ti, kinds, gb, gen, pipe, finalize, typing) -> bool:
     pcttxt = "90" if ctype == "value_percentile" else ""
     want_a = f"{ctype}:ts=300:refs={','.join(ids)}:field={fieldtxt}:{gbtxt}:pct={pcttxt}"
     want_c = f"COND<{fieldtxt}|>=|2>refs={','.join(ids)}"
-    return q == "\x10S" + want_s + "\x11T" + want_t + "\x12A" + want_a + "\x13C" + want_c + "\x14"
+    want_q = "\x10S" + want_s + "\x11T" + want_t + "\x12A" + want_a + "\x13C" + want_c + "\x14"
+    if pipe and P("PPALL", 0):
+        want_q = "F[" + want_q + "]"  # what the correlation rule emits for itself is always post-processed
+    return q == want_q
 
 
 def c10b_structure(n: int, k0: int, k1: int, k2: int, gb: int, gen: bool, pipe: bool, finalize: bool, typing: bool) -> bool:
@@ -496,6 +502,8 @@ def c10b_concrete(ti: int, kinds_csv: str, gb: int, gen: bool, pipe: bool, final
 OBLIGATIONS = (
     [Ob("c10b_structure", {"TYPE": t}, 900) for t in range(8)]
     + [Ob("c10b_structure", {"TYPE": t, "LSC": 1}, 900) for t in (1, 2)]
+    + [Ob("c10b_structure", {"TYPE": t, "PPALL": 1}, 900) for t in (0, 2)]
+    + [Ob("c10b_structure", {"TYPE": t, "PPALL": 1}, 1800, tier="thorough") for t in (1, 3, 4, 5, 6, 7)]
     + [Ob("c10b_structure", {"TYPE": t, "LSC": 1}, 1800, tier="thorough") for t in (0, 3, 4, 5, 6, 7)]
     + [Ob("c10c_condition", {}, 600), Ob("c10a_timespan", {}, 300), Ob("c10d_extended", {}, 300)]
     + [Ob("c10a_timespan_text", {"LEN": 3}, 600)]
